@@ -18,8 +18,8 @@ func init() {
 		NonTrivial: func(o *Outcome) bool {
 			return o.Hist.Probes["must-not-store-reply-followed-by-request"] > 0
 		},
-		Rule:         "seeded plans: per key one fetch (any method) with 0-2 concurrent identical requests, a drawn delay, then 1-3 identical requests; the origin's header set comes from a grammar over Cache-Control directives (any order, casing, spacing, 1-3 header lines, unknown tokens), max-age/s-maxage in {0,1,small,overflow}, Age in {absent, valid, > max-age, negative, non-numeric, huge}, Set-Cookie, any status. The header language is an input space: sampled by the seeded generator and checked through time and state (store -> reuse), not enumerated. non-trivial = a reply the model says must not be stored was followed by another request of its key; distinct = distinct history hash",
-		ExpectProbes: []string{"must-not-store-reply-followed-by-request", "must-not:set-cookie", "must-not:no-cache", "must-not:no-store", "must-not:private", "must-not:no cache-control", "must-not:lifetime<=0", "must-not:method", "label-hit-checked", "label-other-checked", "uppercase-directive"},
+		Rule:         "seeded plans: per key one fetch (any method) with 0-2 concurrent identical requests, a drawn delay, then 1-3 identical requests; the origin's header set comes from a grammar over Cache-Control directives (any order, casing, spacing, 1-3 header lines, unknown tokens), max-age/s-maxage in {0,1,small,overflow}, Age in {absent, valid, > max-age, negative, non-numeric, huge}, Set-Cookie, any status; in 15% of plans the location adds response headers of its own (a permissive Cache-Control included), which must not lift what the origin forbids. The header language is an input space: sampled by the seeded generator and checked through time and state (store -> reuse), not enumerated. non-trivial = a reply the model says must not be stored was followed by another request of its key; distinct = distinct history hash",
+		ExpectProbes: []string{"must-not-store-reply-followed-by-request", "must-not:set-cookie", "must-not:no-cache", "must-not:no-store", "must-not:private", "must-not:no cache-control", "must-not:lifetime<=0", "must-not:method", "must-not:huge Age", "location-adds-cache-control", "label-hit-checked", "label-other-checked", "uppercase-directive"},
 	})
 }
 
@@ -98,6 +98,11 @@ func randCaseKeepLower(g *Gen, s string) string {
 func genC03(g *Gen) *Plan {
 	p := &Plan{Profile: "C03", Seed: g.Seed, Policy: g.policy(), ClockMenuMs: []int{200, 1000}, ClockWeight: pick(g, 0.0, 0.05), MaxSteps: 1500}
 	p.Configs = []Config{baseConfig(1000, "1s", "")}
+	if g.p(0.15) {
+		// the location adds response headers of its own, caching directives included: what
+		// the origin forbids stays forbidden
+		p.Configs[0].Locations[0].RespHeaders = []string{pick(g, "Cache-Control:public, max-age=30", "Cache-Control:max-age=5", "X-Added:1", "Cache-Control:public")}
+	}
 	p.Scripts = map[string][]Reply{}
 	p.Default = Reply{Status: 200, Size: 20}
 	nkeys := g.n(1, 4)
@@ -145,6 +150,9 @@ func oracleC03(o *Outcome) []Violation {
 		}
 		if u.Verdict.MustNot {
 			o.Hist.Probes["must-not:"+u.Verdict.Why]++
+			if len(o.Plan.Configs[0].Locations[0].RespHeaders) > 0 && strings.HasPrefix(o.Plan.Configs[0].Locations[0].RespHeaders[0], "Cache-Control") {
+				o.Hist.Probes["location-adds-cache-control"]++
+			}
 			for _, r := range o.Hist.Reqs {
 				if r.Key == u.Key && r.InvokeSeq > u.ReplySeq && u.ReplySeq > 0 {
 					o.Hist.Probes["must-not-store-reply-followed-by-request"]++
